@@ -11,7 +11,7 @@ monitor_name = "AttemptCheck (AttemptSpec recognisers)"
 sub_names = {1: "event stream and callback log of every attempt"}
 rule = attemptgen.RULE
 trusted_base = attemptgen.TRUSTED
-also = ["C10b", "C10c"]   # panics while other attempts are in flight: the process panic hook over whole scheduler runs
+also = ["C10b", "C10c", "C10d"]   # panics while other attempts are in flight: the process panic hook over whole scheduler runs
 assumptions = ["outcomes of user code are scripted per attempt; futures inside an attempt complete without waiting"]
 
 
